@@ -1,5 +1,7 @@
 """The symbolic executor (statements, expressions, calls, loops, exceptions)."""
 import ast
+import os
+import sys
 import itertools
 import z3
 
@@ -91,6 +93,9 @@ class Executor:
         if self.spec_mode:
             # clauses are total: a definitely-failing alternative (under its union guard) is dropped
             if is_true(simp(cond)):
+                if os.environ.get("PYVC_DEBUG_ABORT"):
+                    import traceback
+                    sys.stderr.write("spec abort %s: %s\n" % (cls_name, "".join(traceback.format_stack(limit=int(os.environ.get("PYVC_DEBUG_ABORT"))))))
                 raise _Abort()
             return
         cond = simp(cond)
@@ -333,7 +338,9 @@ class Executor:
                     pcs = _pc_state(state.pc[:n] + list(self.quant_facts))   # incl. guards of enclosing implies/forall
                     if not self.prove_quick(pcs, z3.Not(g)):
                         self.spec_mode, sm = 0, self.spec_mode
-                        self.oblige("spec-defined", pcs, simp(z3.Not(g)), info={"clause": getattr(self, "cur_clause", None)})
+                        self.oblige("spec-defined", pcs, simp(z3.Not(g)),
+                                    info={"clause": getattr(self, "cur_clause", None),
+                                          "undefined_for": ", ".join(repr(c[1])[:80] for c in combo)})
                         self.spec_mode = sm
                 state.pc = state.pc[:n] + [simp(z3.Not(g))]
                 continue
@@ -396,11 +403,12 @@ class Executor:
         return n
 
     # ------------------------------------------------------------------ statements
-    def exec_block(self, state, stmts):
-        """Execute a statement list; returns outcomes.  Normal outcomes are merged between statements."""
+    def exec_block(self, state, stmts, merge_last=True):
+        """Execute a statement list; returns outcomes.  Normal outcomes are merged between statements
+        (merge_last=False: the normal outcomes of the last statement stay separate -- one exit per path)."""
         outs = []
         cur = state
-        for st in stmts:
+        for i, st in enumerate(stmts):
             if cur is None:
                 break
             res = self.exec_stmt(cur, st)
@@ -411,6 +419,9 @@ class Executor:
                 else:
                     if not o.state.dead():
                         outs.append(o)
+            if not merge_last and i == len(stmts) - 1:
+                outs.extend(Outcome("normal", s_) for s_ in normals if not s_.dead())
+                return outs
             cur = merge_states(normals) if normals else None
         if cur is not None and not cur.dead():
             outs.append(Outcome("normal", cur))
@@ -612,6 +623,8 @@ class Executor:
             if isinstance(tv, VOpaque):
                 possible = True
                 continue
+            if isinstance(tv, VModule) and tv.name.split(".")[-1] in BUILTIN_EXC:
+                tv = VClass(tv.name.split(".")[-1], None)       # exception class imported from outside the repository
             if not isinstance(tv, VClass):
                 raise Unsupported("except clause type %r" % (tv,))
             if tv.name in names:
@@ -924,6 +937,9 @@ class Executor:
                 ext = self.reg.virtual_method(o.shape, attr)
                 if ext is not None:
                     return VFunc("virtual", attr, self_val=a, spec=ext)
+                if self.spec_mode:
+                    # a clause reading a field the alternative does not have must guard the read (spec-defined)
+                    self.raise_if(state, z3.BoolVal(True), "AttributeError")
                 raise Unsupported("attribute %s not declared in shape %s" % (attr, o.shape))
             if o.kind == "exc" or self.spec_mode:
                 self.raise_if(state, z3.BoolVal(True), "AttributeError")
@@ -963,7 +979,7 @@ class Executor:
                 c, ex = a.info.find_attr(attr)
                 if ex is not None:
                     return self.module_const(state, c.module, c.name + "." + attr, ex)
-            if (a.name + "." + attr) in models.BUILTINS:
+            if (a.name + "." + attr) in models.BUILTINS or (a.name + "." + attr) in self.reg.externals:
                 return VFunc("builtin", a.name + "." + attr)
             raise Unsupported("class attribute %s.%s" % (a.name, attr))
         if isinstance(a, (VBytes, VStr, VInt, VTuple, VReal)):
@@ -1287,7 +1303,37 @@ class Executor:
 
     def call(self, state, fv, args, kwargs, node=None):
         from . import calls
-        return self.dist(state, [fv], lambda f: calls.call_atom(self, state, f, args, kwargs, node))
+        fv = self.narrow(state, fv)
+        if not isinstance(fv, VUnion):
+            return calls.call_atom(self, state, fv, args, kwargs, node)
+        if self.spec_mode:
+            return self.dist(state, [fv], lambda f: calls.call_atom(self, state, f, args, kwargs, node))
+        # several possible callees (dynamic dispatch over alternatives of the receiver): the effects of each callee
+        # happen only under its guard -- fork per alternative, merge the resulting states
+        states = []
+        for g, f in fv.alts:
+            s = state.copy()
+            s.pending = []
+            s.assume(g)
+            if s.dead():
+                continue
+            try:
+                r = calls.call_atom(self, s, f, args, kwargs, node)
+            except _Abort:
+                state.pending.extend(s.pending)
+                continue
+            state.pending.extend(s.pending)
+            s.pending = []
+            s.frame.locals["__ret__"] = r
+            states.append(s)
+        m = merge_states(states) if states else None
+        if m is None:
+            state.pc.append(z3.BoolVal(False))
+            raise _Abort()
+        pend = state.pending
+        state.become(m)
+        state.pending = pend
+        return state.frame.locals.pop("__ret__")
 
     def instantiate(self, state, cls, args, kwargs):
         from . import calls
